@@ -370,6 +370,8 @@ class Env:
     def _call(self, call):
         f = call.func
         d = self.repo.resolve(self.fi.module, f, self._all_locals())
+        if d == 'builtins.range':
+            return fresh()      # a new object holding numbers it makes
         if d in FRESH_BUILDERS:
             c1, deep = self._args_elem(call)
             return fresh(c1, deep)
